@@ -56,19 +56,19 @@ type Sched struct {
 	killed  bool
 	lastOp  *op
 
-	Trace    []Point
-	Steps    int
-	Horizon  int
-	Observer func(step int)
-	Panics   []string
-	Blocked  []string // threads parked at the end: name:kind
-	Events   []string
-	Diverged bool
+	Trace      []Point
+	Steps      int
+	Horizon    int
+	Observer   func(step int)
+	Panics     []string
+	Blocked    []string // threads parked at the end: name:kind
+	Events     []string
+	Diverged   bool
 	HitHorizon bool
-	Met      bool           // two different threads touched a common object
-	touched  map[uintptr]int // object -> first thread id
-	EnvSince bool           // time.Since answers are environment choices
-	Clock    int64          // extra virtual nanoseconds added by "long" environment answers
+	Met        bool            // two different threads touched a common object
+	touched    map[uintptr]int // object -> first thread id
+	EnvSince   bool            // time.Since answers are environment choices
+	Clock      int64           // extra virtual nanoseconds added by "long" environment answers
 }
 
 // S is the active scheduler; nil when code runs free.
@@ -154,18 +154,35 @@ func (s *Sched) Choices() []int {
 
 var hangGuard = 20 * time.Second
 
+var progress atomic.Int64
+var watchdogOnce sync.Once
+
+// watchdog turns a goroutine that blocks outside the shim (in code the rewriter did not see)
+// into a loud harness error instead of a silent hang.
+func watchdog() {
+	go func() {
+		last, since := int64(-1), time.Now()
+		for {
+			time.Sleep(2 * time.Second)
+			cur := progress.Load()
+			if cur != last || S == nil {
+				last, since = cur, time.Now()
+				continue
+			}
+			if time.Since(since) > hangGuard {
+				fmt.Fprintln(os.Stderr, "HARNESS-ERROR: a goroutine blocked outside the shim - unsupported construct")
+				buf := make([]byte, 1<<16)
+				n := runtime.Stack(buf, true)
+				os.Stderr.Write(buf[:n])
+				os.Exit(2)
+			}
+		}
+	}()
+}
+
 func (s *Sched) waitYield() *thread {
-	select {
-	case t := <-s.yield:
-		return t
-	case <-time.After(hangGuard):
-		fmt.Fprintf(os.Stderr, "HARNESS-ERROR: a goroutine blocked outside the shim (thread %q, last op %q) - unsupported construct\n", s.cur.name, s.cur.op.kind)
-		buf := make([]byte, 1<<16)
-		n := runtime.Stack(buf, true)
-		os.Stderr.Write(buf[:n])
-		os.Exit(2)
-		return nil
-	}
+	progress.Add(1)
+	return <-s.yield
 }
 
 // Run executes main under the scheduler: replays prefix, then always takes choice 0.
@@ -173,6 +190,7 @@ func (s *Sched) waitYield() *thread {
 // enabled thread with the lowest id; after a poll (a select that fell through to default) it
 // moves on round-robin so that a spinning thread cannot starve the others.
 func Run(main func(), prefix []int, horizon int, envSince bool, observer func(step int)) *Sched {
+	watchdogOnce.Do(watchdog)
 	s := &Sched{yield: make(chan *thread), prefix: prefix, Horizon: horizon, Observer: observer, touched: map[uintptr]int{}, EnvSince: envSince}
 	S = s
 	s.spawn("main", main)
@@ -180,14 +198,22 @@ func Run(main func(), prefix []int, horizon int, envSince bool, observer func(st
 		var order []*thread
 		polled := s.cur != nil && s.lastOp != nil && s.lastOp.poll
 		curEnabled := false
+		var held *thread
 		for _, t := range s.threads {
 			if !t.done && t.op.enabled() {
+				if t.id == DelayThread && s.Steps < DelayUntil {
+					held = t
+					continue
+				}
 				if t == s.cur {
 					curEnabled = true
 				} else {
 					order = append(order, t)
 				}
 			}
+		}
+		if held != nil && !curEnabled && len(order) == 0 {
+			order = append(order, held) // nothing else can run: the slow thread gets its turn
 		}
 		switch {
 		case curEnabled && !polled:
@@ -231,6 +257,9 @@ func Run(main func(), prefix []int, horizon int, envSince bool, observer func(st
 			} else if first != t.id {
 				s.Met = true
 			}
+		}
+		if s.cur != nil && s.cur != t && t.op.kind == "yield" {
+			s.Met = true // function-entry yields: two threads interleave inside the instrumented packages
 		}
 		s.cur = t
 		s.lastOp = t.op
@@ -540,6 +569,12 @@ func PlainDec[T integer](p *T) {
 type Timer struct{ stopped atomic.Bool }
 
 func (t *Timer) Stop() bool { return !t.stopped.Swap(true) }
+
+// DelayThread/DelayUntil hold one thread (by creation index) back until the scheduler has
+// executed DelayUntil steps, unless nothing else can run: "this goroutine is slow" is an
+// enumerated dimension of a scenario family, because delay bounding would charge one deviation
+// per round for it. DelayThread < 0: none.
+var DelayThread, DelayUntil = -1, 0
 
 // TimerRelease, when set, delays every timer thread until the scheduler has executed that
 // many steps: the instant at which "time is up" is an enumerated dimension of a scenario.
